@@ -36,7 +36,10 @@ fn strip_prefix_icase<'a>(input: &'a str, prefix: &str) -> Option<&'a str> {
 }
 
 fn parse_pasfmt_toggle(input: &str) -> Option<FormattingToggle> {
-    let word = &input[..count_prefix_bytes(input, u8::is_ascii_alphanumeric)];
+    // The word ends where an identifier would: `off_x` and `offé` are different words from `off`.
+    let word = &input[..count_prefix_bytes(input, |b| {
+        b.is_ascii_alphanumeric() || *b == b'_' || !b.is_ascii()
+    })];
     if word.eq_ignore_ascii_case("on") {
         Some(FormattingToggle::On)
     } else if word.eq_ignore_ascii_case("off") {
